@@ -49,9 +49,14 @@ def ensure_generated():
     return sorted(p for p in srcs if p not in (GEN_SRC, GEN_STATIC))
 
 
+# the framework's flags with -O0 instead of -O1: the generated program instantiates ~1200 statement functions per binary
+# and is rebuilt whenever /repo changes; -O0 compiles it 3-4x faster, the sanitizers instrument it all the same
+FLAGS = ["-O0" if f == "-O1" else f for f in framework.CXXFLAGS]
+
+
 def cpps():
     extra = ensure_generated()
-    return {"m%d" % i: dict(name="log_m%d" % i, driver_src=GEN_SRC, extra_srcs=extra,
+    return {"m%d" % i: dict(name="log_m%d" % i, driver_src=GEN_SRC, extra_srcs=extra, flags=FLAGS,
                             defines=["NITRO_LOG_MIN_SEVERITY=%s" % SEVS[i], "VH_MIN=%d" % i])
             for i in range(6)}
 
@@ -65,7 +70,7 @@ def static_assert_check(ctx, prop):
 
     def one(i):
         try:
-            framework.build_cpp(name="log_static_m%d" % i, driver_src=GEN_STATIC,
+            framework.build_cpp(name="log_static_m%d" % i, driver_src=GEN_STATIC, flags=FLAGS,
                                 defines=["NITRO_LOG_MIN_SEVERITY=%s" % SEVS[i], "VH_MIN=%d" % i])
             return i, None
         except framework.BuildError as e:
